@@ -195,9 +195,9 @@ namespace
         }
         void restart(int how, int newcap = 0) override
         {
-            if (how == 4) cap = newcap;
+            if (how == 4 || how == 5) cap = newcap;
             if (how == 1) r.init(buf.get(), cap);
-            else if (how == 2) r.setbuf(buf.get(), cap);
+            else if (how == 2 || how == 5) r.setbuf(buf.get(), cap); // (5: same pointer, shorter length; the block keeps its size)
             else
             {
                 std::unique_ptr<uint8_t[]> fresh(new uint8_t[cap]);
@@ -260,8 +260,8 @@ namespace
         void restart(int how, int newcap = 0) override
         {
             std::unique_ptr<uint8_t[]> fresh;
-            if (how == 4) cap = newcap;
-            if (how >= 3) { fresh.reset(new uint8_t[cap]); buf.swap(fresh); }
+            if (how == 4 || how == 5) cap = newcap;
+            if (how == 3 || how == 4) { fresh.reset(new uint8_t[cap]); buf.swap(fresh); }
             gstuff_autorecv_setbuf_v1(&r, buf.get(), cap); // (the object keeps whatever the interrupted session left in it)
         }
     };
@@ -539,13 +539,13 @@ namespace
             const Elem &e = stream[j];
             if (e.restart)
             {
-                if (e.restart == 4) cap = std::max(2, cap / 2); // the owner re-binds the receiver to a smaller buffer
+                if (e.restart == 4 || e.restart == 5) cap = std::max(2, cap / 2); // the owner re-binds the receiver to a smaller buffer (4: a fresh one, 5: the window of the same one shrinks)
                 rx->restart(e.restart, cap);
                 ref.anchored = false; // nothing before a restart counts as "since the last start marker"
-                fault(e.restart == 1 ? "receiver_restart" : e.restart == 2 ? "receiver_restart_setbuf" : e.restart == 3 ? "receiver_restart_new_buffer" : "receiver_restart_smaller_buffer");
+                fault(e.restart == 1 ? "receiver_restart" : e.restart == 2 ? "receiver_restart_setbuf" : e.restart == 3 ? "receiver_restart_new_buffer" : e.restart == 4 ? "receiver_restart_smaller_buffer" : "receiver_restart_same_buffer_shorter");
                 // right after the re-bind, before any further byte: the accessors see an empty line inside the new buffer
                 if (rx->stored() > (size_t)cap - 1) violate("C05/S1-capacity", "%s: right after a re-bind to a buffer of capacity %d the receiver reports %zu stored bytes", VAR_NAME[variant], cap, rx->stored());
-                if (e.restart == 4) rx->touch();
+                if (e.restart == 4 || e.restart == 5) rx->touch();
             }
             uint8_t b = e.b;
             if (e.magic)
@@ -708,7 +708,7 @@ namespace
         case F_REPLACE: es[off].b = special_byte(a, val); break;
         case F_INSERT: es.insert(es.begin() + off, Elem{special_byte(a, val), 0, -1, 0}); break;
         case F_DUP: es.insert(es.begin() + off, es[off]); break;
-        case F_RESTART: es[off].restart = 1 + (int)mod(val, 4); break;
+        case F_RESTART: es[off].restart = 1 + (int)mod(val, 5); break; // (5: the same buffer re-bound with half the length)
         case F_MAGIC: es.insert(es.begin() + off, Elem{0, 1, -1, 0}); break;
         }
         for (auto &e : es) e.frame = -1; // a faulted frame is no longer a well-formed frame
